@@ -2,7 +2,7 @@
    domains).  The lowering (If/Switch/FSM, pattern normalisation, state encoding, register shape and init) and the
    simulation loop are the model's (Model/DslRaw.v); nothing is lowered here. *)
 From Coq Require Import ZArith List Bool.
-From V.Model Require Export Bits Shape Ast Denote PyRTL PyEval Stmt Process Derived Dsl DslRaw.
+From V.Model Require Export Bits Shape Ast Denote PyRTL PyEval Stmt Process Derived Dsl DslRaw DslAcyc.
 From V.Harness Require Import Run.
 Import ListNotations.
 Open Scope Z_scope.
@@ -88,3 +88,13 @@ Definition k_comb_rmw (sigs : list sigdesc) (prog : list rstmt) (driven : list n
   end.
 Definition k_comb_alias (sigs : list sigdesc) (prog : list rstmt) (driven : list nat) (evs : list (list (nat * Z))) : list Z :=
   k_comb_spec_gen false sigs prog driven evs ++ [-99] ++ k_comb_rmw sigs prog driven evs.
+
+(* the decidable "no combinational loop" check (Model/DslAcyc.v) on the lowered comb statements of a design, with the
+   ranking the model computes: [ok; largest rank], [-1] if the design does not build *)
+Definition k_acyclic (sigs : list sigdesc) (doms : list domdesc) (mods : list (list ritem)) : list Z :=
+  match res_map (lower_module (S (length doms))) mods with
+  | inr _ => [-1]
+  | inl lows =>
+      let n := (length sigs + length (flat_map l_sigs lows))%nat in
+      let '(ok, R) := acyclic_auto n (map l_doms lows) in [b2l ok; Z.of_nat R]
+  end.
